@@ -516,9 +516,9 @@ namespace c11
     {
       const auto& l = sk.lines[i]; if(!(l.markup && !l.term && l.name == "Partition" && l.ctx.size() == 1)) continue;
       auto it = l.attrs.find("size"); if(it == l.attrs.end()) continue; auto tk = split_ws(it->second); unsigned long long r = 0; if(tk.empty() || !parse_index(tk[0], r)) continue;
-      std::set<std::string> ranks;
-      for(size_t k = i + 1; k < sk.lines.size(); ++k) { const auto& m = sk.lines[k]; if(m.ctx.size() <= 1) break; if(m.markup && !m.term && m.name == "Patch" && m.ctx.size() == 2 && m.ctx.back() == (int)i) { auto jt = m.attrs.find("rank"); if(jt != m.attrs.end()) ranks.insert(jt->second); } }
-      if(ranks.size() < r) return true;
+      unsigned long long blocks = 0;   // Patch blocks, whatever their rank attribute says (a repeated rank is not a count violation)
+      for(size_t k = i + 1; k < sk.lines.size(); ++k) { const auto& m = sk.lines[k]; if(m.ctx.size() <= 1) break; if(m.markup && !m.term && m.name == "Patch" && m.ctx.size() == 2 && m.ctx.back() == (int)i) ++blocks; }
+      if(blocks < r) return true;
     }
     return false;
   }
